@@ -55,8 +55,59 @@ theorem C20_done_below_threshold (k : KV) (now : Int) (order : List Nat)
   have := (compaction_done_iff k now order).mp hd
   intro t ht
   have h := pickLast_none _ _ this t ht
-  simp only [needsCompaction, decide_eq_false_iff_not, Nat.not_le] at h
-  exact h
+  simp only [needsCompaction, Bool.or_eq_false_iff, decide_eq_false_iff_not, Nat.not_le] at h
+  exact h.2
+
+/-- **C20 (no dead table is kept).**  When `Compaction` answers done, a table behind the head that holds no live
+    entry carries no garbage either: it is blank (recycled, waiting to be reused or freed).  Before the repair
+    6031b9a a table retired nearly empty — the entry that did not fit was a large one — stayed allocated forever once
+    its few entries were superseded: it never reached the 40 % ratio (finding F44; `dead_table_witness` below). -/
+theorem C20_done_no_dead_table (k : KV) (w : k.WF) (now : Int) (order : List Nat)
+    (hd : (k.compaction now order).2 = true) : ∀ t ∈ k.old, t.slots = [] → t.garbage = 0 ∧ t.off = 0 := by
+  have := (compaction_done_iff k now order).mp hd
+  intro t ht hs
+  have h := pickLast_none _ _ this t ht
+  have hi : t.inuse = 0 := by rw [w.acct t (by simp [newestFirst, ht]), hs]; rfl
+  have htot := w.tot t (by simp [newestFirst, ht])
+  simp only [needsCompaction, Bool.or_eq_false_iff, Bool.and_eq_false_iff, beq_eq_false_iff_ne, decide_eq_false_iff_not] at h
+  rcases h.1 with h1 | h1
+  · exact absurd hi h1
+  · omega
+
+/-- ... hence the tables in use behind the head are at most as many as the present keys: each holds a live entry
+    of its own (the entries of different tables belong to different keys: C11 uniqueness). -/
+theorem C20_tables_le_keys (k : KV) (w : k.WF) (now : Int) (order : List Nat)
+    (hd : (k.compaction now order).2 = true) :
+    (k.old.filter (fun t => decide (t.off > 0))).length ≤ k.stats.length := by
+  have hdead := C20_done_no_dead_table k w now order hd
+  have hlen : (k.old.map (fun t => t.slots.length)).sum ≤ k.stats.length := by
+    simp only [stats, tables, List.map_append, List.sum_append, List.map_reverse, List.sum_reverse]
+    omega
+  refine Nat.le_trans ?_ hlen
+  have : ∀ ts : List Table, (∀ t ∈ ts, t.slots = [] → t.off = 0) →
+      (ts.filter (fun t => decide (t.off > 0))).length ≤ (ts.map (fun t => t.slots.length)).sum := by
+    intro ts
+    induction ts with
+    | nil => intro _; simp
+    | cons a l ih =>
+      intro h
+      have ih' := ih (fun t ht => h t (List.mem_cons_of_mem _ ht))
+      simp only [List.filter_cons, List.map_cons, List.sum_cons]
+      split
+      · rename_i hpos
+        have hne : a.slots ≠ [] := fun e => by
+          have := h a List.mem_cons_self e
+          simp only [decide_eq_true_eq] at hpos; omega
+        have : 0 < a.slots.length := List.length_pos_iff.mpr hne
+        simp only [List.length_cons]; omega
+      · omega
+  exact this k.old (fun t ht hs => (hdead t ht hs).2)
+
+/-- the table the repaired predicate is about: no live entry, 79 bytes of garbage in 1000 — below the ratio, so the
+    ratio alone (`garbage * 5 ≥ alloc * 2`) never selects it, the predicate of the code now does -/
+def deadTable : Table := { cf := 0, off := 79, alloc := 1000, inuse := 0, garbage := 79, state := .ro, recycledAt := 0, slots := [] }
+theorem dead_table_witness : decide (deadTable.garbage * 5 ≥ deadTable.alloc * 2) = false ∧ needsCompaction deadTable = true := by
+  decide
 
 /-- **C20 (per-table bound).**  A table that is below the compaction threshold and was retired because
     an entry of at most `E` bytes did not fit any more carries live data for at least 60 % of its size
@@ -180,8 +231,8 @@ theorem C20_compaction_reaches_threshold (ord : KV → List Nat) (now : Nat → 
   obtain ⟨a, _, _, e⟩ := C11.C11_compaction_terminates ord now hord k w hts
   refine ⟨a, fun t ht => ?_⟩
   have h := e t ht
-  simp only [needsCompaction, decide_eq_false_iff_not, Nat.not_le] at h
-  exact h
+  simp only [needsCompaction, Bool.or_eq_false_iff, decide_eq_false_iff_not, Nat.not_le] at h
+  exact h.2
 
 /-- **Tie to the source (regenerated on every run).**  The member-level worker (internal/dmap/compaction.go)
     calls `Compaction` until done on every DMap fragment of the primary AND of the backup partitions: the loop the
